@@ -29,16 +29,38 @@ func init() {
 		Run: func(c *RuleCtx) {
 			streamsF := c.field("Association", "streams")
 			// the Stream receiver of call: lookup in a.streams keyed by <elem>.identifier ; returns key's base
+			// (the stream may also come from a get-or-create: every φ leaf must name the same key — the lookup's
+			// index, or the identifier argument of the creating call)
 			lookupKeyBase := func(recv ssa.Value) (string, ssa.Value) {
-				ex, ok := recv.(*ssa.Extract)
-				if !ok {
-					return "", nil
+				name, base, first := "", ssa.Value(nil), true
+				for _, lf := range phiLeaves(recv) {
+					var n string
+					var b ssa.Value
+					x := unconv(lf.Val)
+					if ex, ok := x.(*ssa.Extract); ok {
+						x = ex.Tuple
+					}
+					switch y := x.(type) {
+					case *ssa.Lookup:
+						if IsLoadOf(streamsF)(y.X) {
+							n, b = elemFieldName(y.Index)
+						}
+					case *ssa.Call:
+						if sc := y.Call.StaticCallee(); sc != nil && c.P.inPkg(sc) {
+							for _, a := range y.Call.Args {
+								if an, ab := elemFieldName(a); an == "identifier" {
+									n, b = an, ab
+								}
+							}
+						}
+					}
+					if first {
+						name, base, first = n, b, false
+					} else if n != name || b != base {
+						return "", nil
+					}
 				}
-				lk, ok := ex.Tuple.(*ssa.Lookup)
-				if !ok || !IsLoadOf(streamsF)(lk.X) {
-					return "", nil
-				}
-				return elemFieldName(lk.Index)
+				return name, base
 			}
 			type want struct{ handler, wrapper, argField string }
 			for _, w := range []want{
